@@ -441,14 +441,121 @@ Proof.
   destruct I2 as [_ _ _ CH]. auto.
 Qed.
 
+(** * The size guard of `lex` excludes saturation *)
+Definition notcr (c : chr) : bool := negb (is_cr c).
+
+Lemma take_while_stop {A} (f : A -> bool) a c b : f c = false -> take_while f (a ++ c :: b) = take_while f a.
+Proof.
+  intros H. induction a as [|x a IH]; cbn [app take_while]; [rewrite H; reflexivity|].
+  destruct (f x); [rewrite IH|]; reflexivity.
+Qed.
+
+Lemma last_line_after_nl x c y : is_nl c = true -> last_line (x ++ c :: y) = last_line y.
+Proof.
+  intros H. unfold last_line. rewrite rev_app_distr. cbn [rev]. rewrite <- app_assoc. cbn [app].
+  rewrite take_while_stop by (rewrite H; reflexivity). reflexivity.
+Qed.
+
+Lemma filter_len_le {A} (g : A -> bool) l : (length (filter g l) <= length l)%nat.
+Proof. induction l as [|a l IH]; cbn [filter length]; [lia|]. destruct (g a); cbn [length]; lia. Qed.
+Lemma filter_rev_len {A} (g : A -> bool) (l : list A) : length (filter g (rev l)) = length (filter g l).
+Proof.
+  induction l as [|a l IH]; cbn [rev filter]; [reflexivity|].
+  rewrite filter_app, app_length, IH. cbn [filter]. destruct (g a); cbn [length]; lia.
+Qed.
+Lemma filter_take_while_len {A} (g f : A -> bool) (l : list A) :
+  (length (filter g (take_while f l)) <= length (filter g l))%nat.
+Proof.
+  induction l as [|a l IH]; cbn [take_while filter]; [lia|].
+  destruct (f a); cbn [filter]; destruct (g a); cbn [length]; lia.
+Qed.
+Lemma last_line_filter_le g x : nlen (filter g (last_line x)) <= nlen (filter g x).
+Proof.
+  unfold last_line, nlen. rewrite filter_rev_len.
+  pose proof (filter_take_while_len g (fun c => negb (is_nl c)) (rev x)) as H. rewrite filter_rev_len in H. lia.
+Qed.
+
+Lemma strip_cr_len cur : (length (filter notcr cur) <= length (strip_cr cur))%nat.
+Proof.
+  destruct cur as [|x cur']; [cbn; lia|]. unfold strip_cr. cbn [filter]. unfold notcr at 1.
+  destruct (is_cr x); cbn [negb].
+  - apply filter_len_le.
+  - pose proof (filter_len_le notcr cur'). cbn [length]. lia.
+Qed.
+
+Lemma guard_cur_bound M cs : forall cur, forallb (fun l => nlen l <=? M) (guard_lines cs cur) = true ->
+  nlen (filter notcr cur) <= M.
+Proof.
+  induction cs as [|c r IH]; intros cur H; cbn [guard_lines] in H.
+  - destruct cur as [|x cur']; [cbn; lia|]. cbn [forallb] in H. rewrite andb_true_r in H. apply N.leb_le in H.
+    unfold nlen in *. rewrite rev_length in H. pose proof (filter_len_le notcr (x :: cur')). lia.
+  - destruct (is_nl c).
+    + cbn [forallb] in H. apply andb_prop in H. destruct H as [H _]. apply N.leb_le in H.
+      unfold nlen in *. rewrite rev_length in H. pose proof (strip_cr_len cur). lia.
+    + specialize (IH (c :: cur) H). cbn [filter] in IH. destruct (notcr c); unfold nlen in *; cbn [length] in IH; lia.
+Qed.
+
+Lemma guard_col_bound M cs : forall cur p q, cs = p ++ q ->
+  forallb (fun l => nlen l <=? M) (guard_lines cs cur) = true ->
+  nlen (filter notcr (last_line (rev cur ++ p))) <= M.
+Proof.
+  induction cs as [|c r IH]; intros cur p q E H.
+  - destruct p; [|discriminate]. rewrite app_nil_r.
+    pose proof (last_line_filter_le notcr (rev cur)) as L. pose proof (guard_cur_bound M [] cur H) as B.
+    unfold nlen in *. rewrite filter_rev_len in L. lia.
+  - destruct p as [|c' p'].
+    + rewrite app_nil_r.
+      pose proof (last_line_filter_le notcr (rev cur)) as L. pose proof (guard_cur_bound M (c :: r) cur H) as B.
+      unfold nlen in *. rewrite filter_rev_len in L. lia.
+    + cbn [app] in E. injection E as <- ->. cbn [guard_lines] in H. destruct (is_nl c) eqn:En.
+      * rewrite last_line_after_nl by assumption. cbn [forallb] in H. apply andb_prop in H. destruct H as [_ H].
+        apply (IH [] p' q eq_refl H).
+      * replace (rev cur ++ c :: p') with (rev (c :: cur) ++ p') by (cbn [rev]; rewrite <- app_assoc; reflexivity).
+        apply (IH (c :: cur) p' q eq_refl H).
+Qed.
+
+Lemma guard_lines_count cs : forall cur, nlen (filter is_nl cs) <= nlen (guard_lines cs cur).
+Proof.
+  induction cs as [|c r IH]; intros cur; cbn [filter guard_lines]; [unfold nlen; cbn [length]; lia|].
+  destruct (is_nl c).
+  - specialize (IH []). unfold nlen in *. cbn [length]. lia.
+  - apply IH.
+Qed.
+
+(** every input accepted by the guard has all line numbers and columns representable *)
+Theorem guard_excludes_saturation i : accepted i = true -> fits16 i.
+Proof.
+  unfold accepted, guard_ok. intros H. apply andb_prop in H. destruct H as [Hn Hl]. apply N.leb_le in Hn.
+  intros k. unfold chars_before.
+  assert (E : concat i = concat (firstn k i) ++ concat (skipn k i)) by (rewrite <- concat_app, firstn_skipn; reflexivity).
+  split.
+  - unfold line_of. pose proof (guard_lines_count (concat i) []) as C. rewrite E in C at 1.
+    rewrite filter_app, nlen_app in C. unfold GUARD_MAX, U16MAX in *. lia.
+  - unfold col_of. pose proof (guard_col_bound GUARD_MAX (concat i) [] _ _ E Hl) as C. cbn [rev app] in C.
+    unfold notcr in C. unfold GUARD_MAX, U16MAX in *. lia.
+Qed.
+
+(** so the specification theorem holds for every accepted input without the fits16 premise *)
+Corollary loc_spec_guarded i acts l : fits32 i -> accepted i = true -> segs_pos i -> split_free acts = true ->
+  produced (run i acts) l ->
+  loc_of_prefix i (byte_pos l) = Some l /\ exists k, (k <= length i)%nat /\ byte_pos l = bytes_of (firstn k i).
+Proof. intros H32 Ha. apply loc_spec; auto. apply guard_excludes_saturation. assumption. Qed.
+
+Corollary lexer_asserts_hold_guarded i acts : fits32 i -> accepted i = true -> split_free acts = true ->
+  disc (run i acts) = true -> asserts (run i acts) = true.
+Proof. intros H32 Ha. apply lexer_asserts_hold; auto. apply guard_excludes_saturation. assumption. Qed.
+
 (** * Refutations (witnesses confirmed on the implementation by harness/src/bin/c19.rs) *)
 Definition seg_a : segment := [(1, COther)].
 Definition seg_nl : segment := [(1, CNl)].
 
-(** u16 saturation: one line of 65536 one-byte characters; the column after it is 65537 but
+(** The two records below are about the UNGUARDED bookkeeping (update_loc / make_span alone); since the
+    repair of the guard (e843625) both witnesses are rejected by `lex` before the tokeniser runs:
+    see [pre_witnesses_rejected].
+    u16 saturation: one line of 65536 one-byte characters; the column after it is 65537 but
     the lexer reports 65535.  (Design limit of the Loc format; known finding loc-u16-saturation.) *)
 Definition long_line : input := N.iter 65536 (cons seg_a) [].
-Theorem saturation_refuted :
+Theorem saturation_refuted_pre :
   exists i, fits32 i /\ col (loc_at i (length i)) <> col (spec_loc i (length i)).
 Proof.
   exists long_line. split; [split|].
@@ -461,7 +568,7 @@ Qed.
     (lex.rs:53-83 accepts 65536 lines): 65534 line breaks, "a", line break.  The Newline token
     starts at 65535:2 and ends at 65536:1, which saturates to 65535:1. *)
 Definition many_lines : input := N.iter 65534 (cons seg_nl) [seg_a; seg_nl].
-Theorem line_saturation_assert_refuted :
+Theorem line_saturation_assert_refuted_pre :
   exists i k1 k2, fits32 i /\ Nat.leb k1 k2 = true /\ Nat.leb k2 (length i) = true /\
     make_span_ok (loc_at i k1) (loc_at i k2) = false.
 Proof.
@@ -472,6 +579,9 @@ Proof.
   - vm_compute. reflexivity.
   - vm_compute. reflexivity.
 Qed.
+
+Lemma pre_witnesses_rejected : accepted long_line = false /\ accepted many_lines = false.
+Proof. split; vm_compute; reflexivity. Qed.
 
 (** the arithmetic of the split-identifier path (lex.rs:1437-1453) is applied to the text AFTER
     escape replacement: `\\pi` is four one-byte segments, the identifier text is "π"
